@@ -230,16 +230,16 @@ SUITES = {
     ],
     "thorough": [
         ("placement", dict(MaxDepth=3, MaxIgn=1, Kinds=set(KINDS), AllShapes=False, Pats=ALLPATS,
-                           ExtChoices={SQL, SQLTXT, UPPER}, CwdNames={"", "a", "ab"}),
-         "complete tree of depth 3, one ignore file of every kind at every directory x all pattern sets"),
+                           ExtChoices={SQL, SQLTXT}, CwdNames={"", "a"}),
+         "complete tree of depth 3, one ignore file of every kind at every directory x all 10 pattern sets"),
         ("pairs3", dict(MaxDepth=3, MaxIgn=2, Kinds={".sqlfluffignore"}, AllShapes=False,
-                        Pats={"base", "sub", "dir", "keep1"}, ExtChoices={SQL}, CwdNames={"", "a"}),
-         "complete tree of depth 3, up to two .sqlfluffignore files at every pair of directories x 4 pattern sets"),
-        ("kinds", dict(MaxDepth=2, MaxIgn=2, Kinds=set(KINDS), AllShapes=False, Pats={"base", "sub", "anch", "neg"},
-                       ExtChoices={SQL}, CwdNames={"", "a"}),
-         "complete tree of depth 2, up to two ignore files of every kind x 4 pattern sets"),
+                        Pats={"base", "sub", "keep1"}, ExtChoices={SQL}, CwdNames={"", "a"}),
+         "complete tree of depth 3, up to two .sqlfluffignore files at every pair of directories x 3 pattern sets"),
+        ("kinds", dict(MaxDepth=2, MaxIgn=2, Kinds=set(KINDS), AllShapes=False, Pats={"base", "sub", "neg"},
+                       ExtChoices={SQL, UPPER}, CwdNames={"", "a", "ab"}),
+         "complete tree of depth 2, up to two ignore files of every kind x 3 pattern sets, three working directories"),
         ("shapes", dict(MaxDepth=3, MaxIgn=1, Kinds={".sqlfluffignore"}, AllShapes=True,
-                        Pats={"base"}, ExtChoices={SQL}, CwdNames={"", "a"}),
+                        Pats={"base"}, ExtChoices={SQL}, CwdNames={""}),
          "all 676 tree shapes of depth 3, one ignore file, pattern set `x.sql`"),
     ],
 }
